@@ -95,10 +95,6 @@ Definition case_agrees (c : case) : bool :=
 (* implementation output satisfies the property; written without the model's search algorithm:
    the reference is ONE fraction holding everything, i.e. the canonical ordered duplicate-free list
    of all hits, cut at the limit *)
-Definition ids_hist (interval : N) (ids : list ID) : hist :=
-  if (0 <? interval)%N
-  then fold_left (fun h i => hist_add (bucket (mid i) interval) 1 h) ids []
-  else [].
 Definition consistent (interval : N) (q : qpr) : bool :=
   hist_eqb (q_hist q) (ids_hist interval (q_ids q)) && (q_total q =? N.of_nat (length (q_ids q)))%N.
 
@@ -109,9 +105,9 @@ Definition case_spec_ok (c : case) : bool :=
   | CMerge dst qs limit interval o impl =>
       let all := q_ids dst ++ concat (map q_ids qs) in
       idl_eqb (q_ids impl) (firstn limit (norm o all))
-      (* when every part counts exactly its own IDs and nothing is cut, the merged Total and
-         histogram count every distinct ID once *)
-      && (negb (forallb (consistent interval) (dst :: qs) && (length all <=? limit)%nat)
+      (* when every part counts exactly its own IDs, the merged Total and histogram count every
+         distinct ID once, whatever the limit (C05_merge_spec) *)
+      && (negb (forallb (consistent interval) (dst :: qs))
           || ((q_total impl =? N.of_nat (length (norm o all)))%N
               && hist_eqb (q_hist impl) (ids_hist interval (norm o all))))
   | CEnsured o ids rem impl =>
@@ -129,6 +125,12 @@ Definition case_spec_ok (c : case) : bool :=
       && strictly_ordered (p_order p) (q_ids impl)
       && keys_sorted (p_order p) (map (fkey (p_order p)) (select perm layout))
       && (negb (nodup_ids (layout_ids layout)) || sums_eqb impl (one_fraction p layout))
+      (* duplicates across fractions are repaired when the limit cuts nothing and no fraction holds
+         an ID twice: Total and histogram count every distinct hit once (C05_total_hist_repaired) *)
+      && (negb (forallb (fun f => nodup_ids (hit_ids p f)) layout
+                && (length (all_hit_ids p layout) <=? p_limit p)%nat)
+          || ((q_total impl =? (if p_total p then N.of_nat (length (global_order p layout)) else 0))%N
+              && hist_eqb (q_hist impl) (ids_hist (p_hist p) (global_order p layout))))
       && match single with
          | Some s => idl_eqb (q_ids s) (q_ids impl)
                      && (negb (nodup_ids (layout_ids layout)) || sums_eqb impl s)
